@@ -811,4 +811,61 @@ example : ∀ r ∈ runRpc rcfg Store.empty 0 [(0, Store.empty)] RpcState.empty 
     simp only [rpcOps, List.mem_cons, ROp.putDoc.injEq, reduceCtorEq, List.not_mem_nil, or_false] at hd
     left; rw [hd]; simp
 
+
+/-! ### known finding: a negative entry written because the RPC failed
+
+`fetchAndCachePoliciesForIdentity` / `fetchAndCacheRolesForIdentity` cache a fresh negative entry for
+every id they could not serve from an expired entry when the RPC fails (known_findings:
+`cache:rpc:negative-entry-written-on-rpc-error`). Such an entry is not a value the servers ever held, so
+it breaks `RpcInv`; `resolve_rpc_pure` and `rpc_sequence_pure` are therefore stated for resolutions /
+histories with reachable servers (`up = true`) from a state satisfying `RpcInv`. The full-strength
+statement — `Admissible` for every resolution with reachable servers, whatever happened before — is
+false: -/
+
+def oCfg : RpcCfg := ⟨5, 1, 1, .deny, .allowAll, []⟩
+def PD : Policy := { Policy.nil with rules := [⟨.service, true, [], .lvl .deny, .empty⟩] }
+def docD : Doc := ⟨[65], 1, 0, [], PD⟩
+def oStore : Store := (Store.empty.putDoc docD).putToken tokB
+/-- clock 0: token B (→ policy `docD`: every service denied) is resolved; the policy entry expires;
+    clock 2: the servers are unreachable, B is resolved (the down policy answers, `docD` gets a negative
+    entry); the servers are back -/
+def oSt1 : RpcState := (resolveRpc oCfg true oStore 0 RpcState.empty [98]).1
+def oSt2 : RpcState := (resolveRpc oCfg false oStore 2 oSt1 [98]).1
+def oTrace : List Snap := [(2, oStore), (0, oStore)]
+
+/-- with the servers back, at the same clock, B may read every service (default allow): the policy
+    that exists, and existed at every moment of the history, is ignored -/
+theorem outage_witness_decisions :
+    (resolveRpc oCfg true oStore 0 RpcState.empty [98]).2.decide oCfg (.serviceRead web false) = some .deny ∧
+    (resolveRpc oCfg false oStore 2 oSt1 [98]).2.decide oCfg (.serviceRead web false) = some .deny ∧
+    (resolveRpc oCfg true oStore 2 oSt2 [98]).2.decide oCfg (.serviceRead web false) = some .allow := by
+  decide
+
+/-- resolve_rpc_pure without `RpcInv` (i.e. after an outage) is false: no view of the token's own
+    objects within their TTL windows — indeed no state the servers ever held — explains the answer. -/
+theorem resolve_rpc_pure_outage_counterexample :
+    ¬ Admissible oCfg oTrace 2 [98] (resolveRpc oCfg true oStore 2 oSt2 [98]).2 := by
+  rintro ⟨tokV, roleV, docV, h1, _, h3, he⟩
+  have ht : tokV [98] = some tokB := by
+    obtain ⟨p, hp, _, _, hv⟩ := h1 [98]
+    simp only [oTrace, List.mem_cons, List.not_mem_nil, or_false] at hp
+    rcases hp with rfl | rfl <;> (rw [hv]; decide)
+  have hd : docV [65] = some docD := by
+    obtain ⟨p, hp, _, _, hv⟩ := h3 [65]
+    simp only [oTrace, List.mem_cons, List.not_mem_nil, or_false] at hp
+    rcases hp with rfl | rfl <;> (rw [hv]; decide)
+  have hp : policiesForV roleV docV [] tokB = [docD] := by
+    simp [policiesForV, tokB, dedupeSorted, insertSorted, hd, filterByScope, docD, dedupSvcs, dedupNodes]
+  have hr : (RpcResult.ofExcept (resolveFreshV tokV roleV docV oCfg.dc [98])).decide oCfg (.serviceRead web false) =
+      some .deny := by
+    have e : resolveFreshV tokV roleV docV oCfg.dc [98] =
+        (match compileFresh [docD] with | none => .error .compile | some z => .ok z) := by
+      have hroot : ([98] : Bytes) ∉ rootNames := by decide
+      simp [resolveFreshV, hroot, ht, oCfg, hp]
+      rfl
+    rw [e]; decide
+  have := congrArg (fun r => r.decide oCfg (.serviceRead web false)) he
+  simp only [hr, outage_witness_decisions.2.2] at this
+  cases this
+
 end CV.Acl
